@@ -216,6 +216,7 @@ def run(db, cx):
     rebuild_from_accessors(db, cx)
     solver_dependence(db, cx)
     plane_conversion(db, cx)
+    sphere_conversion(db, cx)
 
 
 def fmt(form):
@@ -492,3 +493,62 @@ def plane_conversion(db, cx):
           ok_d, "d = %r  (N = |b|)" % (d_r,), short(f.loc),
           why="n.x - d must be a positive multiple of b.x + z, otherwise the plane is displaced "
               "and points between the two planes change sense")
+
+
+def sphere_conversion(db, cx):
+    """C12.6-sphere-conversion (A6): a simple quadric a(x^2+y^2+z^2) + e.x + h = 0 with equal
+    second-order coefficients is replaced by Sphere{origin, r^2}, i.e. |x - o|^2 - r^2 = 0.
+    Dividing the quadric by a (> 0): o = -e/(2a) and o.o - r^2 = h/a.  The converter is
+    interpreted on the path that returns a sphere (equal coefficients, r^2 > 0), with a, e, h
+    symbolic."""
+    from polyinterp import Poly, Interp, Return, as_poly
+    from astutil import OutOfVocabulary
+    from fractions import Fraction
+    name = C + "detail::QuadricSphereConverter::operator()"
+    fs = [f for f in db.get(name) if f.r.get("ast")]
+    cx.require(fs, "anchor QuadricSphereConverter::operator() (AST) not found")
+    f = fs[0]
+    a = Poly.sym("a")
+    e = [Poly.sym("e%d" % i) for i in range(3)]
+    h = Poly.sym("h")
+    assumed = []
+
+    def assume(op, x, y, n):
+        # the path under study: the radius is real
+        assumed.append(n.get("loc", ""))
+        if op in ("<=", "<"):
+            return False
+        if op in (">", ">="):
+            return True
+        return None
+    acc = {C + "SimpleQuadric::second": [a, a, a], C + "SimpleQuadric::first": e,
+           C + "SimpleQuadric::zeroth": h, "member:soft_equal_": lambda args: True,
+           C + "Sphere::from_radius_sq": lambda args: ("sphere", args[0], args[1]),
+           "assume": assume}
+    it = Interp(f, acc)
+    try:
+        try:
+            it.run(f.r["ast"])
+            val = None
+        except Return as r:
+            val = r.v
+        while isinstance(val, tuple) and val[0] == "construct" and len(val[2]) == 1:
+            val = val[2][0]
+    except OutOfVocabulary as ex:
+        raise AnalysisBroken("C12.6: QuadricSphereConverter is outside the interpreter's vocabulary: %s" % ex)
+    cx.require(isinstance(val, tuple) and val[0] == "sphere" and isinstance(val[1], list) and len(val[1]) == 3,
+               "QuadricSphereConverter does not return Sphere::from_radius_sq(origin, r^2): %r" % (val,))
+    o, r2 = val[1], as_poly(val[2])
+    half_inv = Poly.const(Fraction(-1, 2)).div(a)
+    ok_o = all(as_poly(o[i]) == e[i] * half_inv for i in range(3))
+    oo = Poly()
+    for x in o:
+        oo = oo + as_poly(x) * as_poly(x)
+    ok_r = (oo - r2) == h.div(a)
+    cx.ob("C12.6-sphere-conversion", "QuadricSphereConverter: origin = -e / (2a)", ok_o,
+          "origin = (%s)" % ", ".join(repr(x) for x in o), short(f.loc),
+          why="expanding |x - o|^2 - r^2 must reproduce the quadric divided by a")
+    cx.ob("C12.6-sphere-conversion", "QuadricSphereConverter: o.o - r^2 = h / a", ok_r,
+          "r^2 = %r" % (r2,), short(f.loc),
+          why="a radius computed with another scale is a different sphere: points between the two "
+              "change sense")
